@@ -279,6 +279,4 @@ def search(ctx, deep):
             "sample": {"law": pairs[0][0], "lhs": tl.render_tel(pairs[0][1]), "rhs": tl.render_tel(pairs[0][2])}}, fails
 
 def replay(obj):
-    if "input" in obj:
-        return [oracles.impl_models(t, 3) for t in obj["input"]]
-    return oracles.impl_models(obj["text"], obj.get("h", 3))
+    return oracles.replay_record(obj, 3)
